@@ -178,7 +178,8 @@ def c17(tier, replay_file=None):
             n0 = len(cases)
             k = 0
             for t in toks:
-                for pats in ([t], ["KB" + t], [t + "x", "K"], ["K", "a" + t + "b"]):
+                # (also behind a line break: whatever the code writes raw into the unit would start a new unit-file line there)
+                for pats in ([t], ["KB" + t], [t + "x", "K"], ["K", "a" + t + "b"], ["K\n" + t], ["K\r" + t, "Z"]):
                     k += 1
                     cases.append({"id": n0 + k, "pats": [[ord(ch) for ch in p_] for p_ in pats]})
             write_ndjson(cpath, cases)
